@@ -37,6 +37,17 @@ claim("C05", "exploration",
       TB + " Specification details the docs leave open follow the repository-pinned behaviour (DESIGN.md 3.3).",
       "DESIGN.md 4 (C05)")
 
+claim("C04", "exploration",
+      "runtime monitoring: epoch-local executable specifications of CUSUM and Page-Hinkley stepped in lock-step with the "
+      "real detectors; drift_state and to_dataframe rows compared after every update",
+      "Hundreds (thousands thorough) of generated level-shift streams with many alarms each, over burn_in / delta / "
+      "threshold / direction / known-or-estimated target, run through the real CUSUM and PageHinkley; after every update "
+      "the state (and all eight to_dataframe columns of Page-Hinkley) is compared with a specification that keeps only "
+      "the current epoch and the documented carry-over, so any dependence on older data or a stale index shows as a "
+      "mismatch in a later epoch.  Sampled, not exhaustive.",
+      TB + " Near-ties (1e-9 relative) adopted; degenerate zero-variance estimation windows not judged.",
+      "DESIGN.md 4 (C04)")
+
 NOT_YET = "check not built yet in this revision of /verif (planned: see DESIGN.md section 4); nothing is claimed for it"
 
 
